@@ -19,6 +19,9 @@ def run_loop_spec() -> ModuleSpec:
             FnSpec("currently_running_step", {"step_uuids": "set", "currently_running_steps": "set"}, ret="bool"),
             FnSpec("_can_run_step", dict(SETS4), ret="bool"),
             FnSpec("_mark_step_as_finished", {"step_uuid": "set", "finished_steps": "set", "currently_running_steps": "set"}, ret="unit"),
+            FnSpec("_process_step_result", {"step": "step"}, ret="bool", lean_name="processStepResult",
+                   extra_params=[("uuidArrived", "Bool"), ("anyUuidIsNone", "Bool")],
+                   doc="`uuidArrived`: the step's uuid is in `worker_manager.result_uuids_collection` after polling; `stepIsDone`: the step object's `step_is_done` flag"),
             FnSpec(
                 "compute",
                 body_params,
@@ -46,10 +49,16 @@ def run_loop_spec() -> ModuleSpec:
         ],
         attrs={"step.required_uuids": ("step.required", "set")},
         getters={"step.get_uuids": ("step.uuids", "set")},
-        isinstance_map={("step", "FeatureGroupStep"): "step.isFG"},
+        # the three step classes partition the steps of a plan: "TransformFrameworkStep or JoinStep" is "not a FeatureGroupStep"
+        isinstance_map={("step", "FeatureGroupStep"): "step.isFG", ("step", "TransformFrameworkStep"): "(!step.isFG)", ("step", "JoinStep"): "(!step.isFG)"},
+        attr_vars={"step.step_is_done": ("stepIsDone", "bool")},
+        expr_map={"step.uuid in self.worker_manager.result_uuids_collection": ("uuidArrived", "bool"), "step.features.any_uuid is None": ("anyUuidIsNone", "bool")},
         opaque={
             "self._drop_data_for_finished_cfws": Opaque("drop_data_for_finished_cfws"),
-            "self._process_step_result": Opaque("process_step_result", returns="bool", oracle="processResult"),
+            "self.worker_manager.poll_result_queues": Opaque("poll_result_queues"),
+            "self.executor.get_cfw": Opaque("get_cfw", returns="obj"),
+            "self.add_to_result_data_collection": Opaque("add_to_result_data_collection"),
+            "self._drop_data_if_possible": Opaque("drop_data_if_possible"),
             "self._execute_step": Opaque("execute_step"),
         },
         transparent_with=["self._step_lock"],
